@@ -24,6 +24,8 @@ enum RetryError {
     Subscription(String, bool),
     Unreachable,
     Misbehaving(MisbehaviorProof),
+    // The tower was flagged as misbehaving by someone else (e.g. while the retrier was waiting)
+    Flagged,
     Abandoned,
 }
 
@@ -33,6 +35,7 @@ impl Display for RetryError {
             RetryError::Subscription(r, _) => write!(f, "{r}"),
             RetryError::Unreachable => write!(f, "Tower cannot be reached"),
             RetryError::Misbehaving(_) => write!(f, "Tower misbehaved"),
+            RetryError::Flagged => write!(f, "Tower is misbehaving. Skipping retry"),
             RetryError::Abandoned => write!(f, "Tower was abandoned. Skipping retry"),
         }
     }
@@ -42,7 +45,10 @@ impl RetryError {
     fn is_permanent(&self) -> bool {
         matches!(
             self,
-            RetryError::Subscription(_, true) | RetryError::Misbehaving(_) | RetryError::Abandoned
+            RetryError::Subscription(_, true)
+                | RetryError::Misbehaving(_)
+                | RetryError::Flagged
+                | RetryError::Abandoned
         )
     }
 }
@@ -351,6 +357,13 @@ impl Retrier {
         {
             let mut state = self.wt_client.lock().unwrap();
             match state.get_tower_status(&self.tower_id) {
+                Some(status) if status.is_misbehaving() => {
+                    // No data is sent to a misbehaving tower, no matter when it was handed to the retrier.
+                    log::info!("Skipping retrying misbehaving tower {}", self.tower_id);
+                    drop(state);
+                    self.set_status(RetrierStatus::Failed);
+                    return;
+                }
                 Some(status) => {
                     if !status.is_subscription_error() {
                         state.set_tower_status(self.tower_id, TowerStatus::TemporaryUnreachable);
@@ -416,6 +429,9 @@ impl Retrier {
                                 .unwrap()
                                 .flag_misbehaving_tower(self.tower_id, p);
                         }
+                        RetryError::Flagged => {
+                            log::info!("Skipping retrying misbehaving tower {}", self.tower_id)
+                        }
                         RetryError::Abandoned => {
                             log::info!("Skipping retrying abandoned tower {}", self.tower_id)
                         }
@@ -445,6 +461,10 @@ impl Retrier {
             }
 
             let tower = wt_client.towers.get(&self.tower_id).unwrap();
+            if tower.status.is_misbehaving() {
+                return Err(Error::permanent(RetryError::Flagged));
+            }
+
             (
                 self.tower_id,
                 tower.status,
